@@ -15,6 +15,11 @@ Directive grammar (each on its own line, leading whitespace allowed):
   //@ entry                 ... right after the body's opening brace
   //@ tail                  ... immediately before the tail expression (last expression of the body)
   //@ exit                  ... immediately before the body's closing brace (functions returning `()`)
+  //@ loop-end N            ... immediately before the closing brace of the N-th loop's body
+  //@ region-start "TEXT" / region-as HEADER / region-prologue TEXT / region-epilogue TEXT
+                            rule R16: the block statement of the fn that starts at TEXT becomes the body of a
+                            synthetic function with the declared header (nested fn items are cut; select them with
+                            `<outer fn selector> :: fn NAME`)
   //@ loop N [iter=NAME]    ... between the N-th loop header and its body (N counts for/while/loop
                             keywords in textual order, from 1); iter=NAME names a for-loop iterator
   //@ before "TEXT" [#k]    ... before the k-th (default: only) occurrence of TEXT in the body
@@ -60,6 +65,14 @@ def locate(path, selector):
     parts = [p.strip() for p in selector.split("::")]
     # re-join impl headers that themselves contain `::` : selector form is `impl H :: fn N`, split at
     # the LAST ` :: fn ` occurrence instead
+    m = re.match(r"^(.+\bfn\s+\w+)\s+::\s+fn\s+(\w+)$", selector.strip())
+    if m:
+        # a fn item nested in the body of another fn: `<outer fn selector> :: fn NAME`
+        sf, outer_it = locate(path, m.group(1))
+        found = _nested_fns(sf, outer_it, m.group(2))
+        if len(found) != 1:
+            raise ExtractError("anchor lost: %d nested `fn %s` in %s %s" % (len(found), m.group(2), path, m.group(1)))
+        return sf, found[0]
     m = re.match(r"^(impl\b.+?|trait\s+\w+)\s+::\s+fn\s+(\w+)$", selector.strip())
     if m:
         outer, name = m.group(1), m.group(2)
@@ -86,6 +99,32 @@ def locate(path, selector):
             raise ExtractError("anchor lost: %d matches for `%s` in %s" % (len(found), selector, path))
         return sf, found[0]
     raise ExtractError("bad selector: %s" % selector)
+
+def _nested_fns(sf, outer, name=None):
+    """fn items declared inside the body of fn item `outer` (any depth); -> list of Item-like objects"""
+    from .rustlex import Item
+    st = sf.st
+    out = []
+    if outer.body_open is None: return out
+    j = outer.body_open + 1
+    while j < outer.body_close:
+        x = st[j]
+        if x.kind == "ident" and x.text == "fn" and st[j + 1].kind == "ident" and st[j - 1].kind == "punct" and st[j - 1].text in ("{", "}", ";"):
+            k = j + 2; d = 0
+            while True:
+                y = st[k]
+                if y.kind == "punct":
+                    if y.text == "{" and d == 0: break
+                    if y.text in OPEN: d += 1
+                    elif y.text in CLOSE: d -= 1
+                k += 1
+            c = match_close(st, k)
+            if name is None or st[j + 1].text == name:
+                out.append(Item(kind="fn", name=st[j + 1].text, header=None, attrs=[], start=st[j].start, end=st[c].end,
+                                attr_start=st[j].start, tok_lo=j, tok_hi=c + 1, kw_i=j, body_open=k, body_close=c, children=None))
+            j = c + 1; continue
+        j += 1
+    return out
 
 # ---------------------------------------------------------------------------------------------
 # token helpers on a text fragment
@@ -391,6 +430,46 @@ def rule_r4(text, rules):
         text = text[:st[i].start] + new + text[st[bc].end:]
         rules.append("R4")
 
+def rule_r17(text, rules):
+    """for PAT in E.iter_mut() { B }  with PAT a struct pattern  ->  for __xK in E.iter_mut() { let PAT = __xK; B }
+    (Verus: the loop variable of a for-loop is also used in spec mode, where `&mut` bindings in patterns are refused)"""
+    k = 0
+    while True:
+        toks, st = _sig_with_index(text)
+        hit = None
+        for i, t in enumerate(st):
+            if not (t.kind == "ident" and t.text == "for"): continue
+            if st[i + 1].text == "<": continue
+            # pattern runs to `in` at depth 0
+            j = i + 1; has_brace = False
+            while True:
+                y = st[j]
+                if y.kind == "punct" and y.text in OPEN:
+                    if y.text == "{": has_brace = True
+                    j = match_close(st, j) + 1; continue
+                if y.kind == "ident" and y.text == "in": break
+                j += 1
+                if j >= len(st): break
+            if j >= len(st) or not has_brace: continue
+            # body open
+            b = j + 1; d = 0
+            while True:
+                x = st[b]
+                if x.kind == "punct":
+                    if x.text == "{" and d == 0: break
+                    if x.text in OPEN: d += 1
+                    elif x.text in CLOSE: d -= 1
+                b += 1
+            if "iter_mut()" not in text[st[j].end:st[b].start]: continue    # only `&mut` bindings are refused
+            hit = (i, j, b); break
+        if hit is None: return text
+        i, j, b = hit
+        k += 1
+        pat = text[st[i + 1].start:st[j - 1].end]
+        var = "__x%d" % k
+        text = text[:st[i + 1].start] + var + " " + text[st[j].start:st[b].end] + (" let %s = %s;" % (pat, var)) + text[st[b].end:]
+        rules.append("R17")
+
 def rule_r3(text, rules, only_guarded=False):
     """split or-pattern arms of every `match` whose arms have top-level `|` alternatives
     (only_guarded: only arms that also carry an `if` guard - Verus rejects or-pattern + guard outright)"""
@@ -565,7 +644,7 @@ class Piece:
     """one extracted item with provenance"""
     def __init__(self):
         self.path = None; self.selector = None; self.span = None; self.sha256 = None
-        self.rules = []; self.substs = []; self.text = None; self.orig = None
+        self.rules = []; self.substs = []; self.text = None; self.orig = None; self.region = None
 
 def extract_item(path, selector, opts, directives, findings_open):
     sf, it = locate(path, selector)
@@ -579,6 +658,52 @@ def extract_item(path, selector, opts, directives, findings_open):
     text = orig
     rules = pc.rules
     rules.append("R1")
+    if "region" in directives:
+        # R16: a statement inside the function becomes the body of a synthetic function whose header, prologue and
+        # epilogue are declared in the unit; nested fn items inside the region are cut (they are items of their own)
+        rg = directives["region"]
+        anchor = rg["start"]
+        n = orig.count(anchor)
+        if n != 1: raise ExtractError("anchor lost: region start %r occurs %d times in %s %s" % (anchor[:40], n, path, selector))
+        a0 = orig.index(anchor)
+        toks_, st_ = _sig_with_index(orig)
+        i0 = next((i for i, t in enumerate(st_) if t.start == a0), None)
+        if i0 is None or not _stmt_start(st_, i0) or st_[i0].text not in ("for", "while", "loop", "if", "match", "{"):
+            raise ExtractError("region start is not the first token of a block statement in %s %s" % (path, selector))
+        j = i0 + (0 if st_[i0].text == "{" else 1); d = 0
+        if st_[i0].text == "for":
+            # skip the pattern (may contain braces) up to `in`
+            while True:
+                y = st_[j]
+                if y.kind == "punct" and y.text in OPEN: j = match_close(st_, j) + 1; continue
+                if y.kind == "ident" and y.text == "in": break
+                j += 1
+        while True:
+            x = st_[j]
+            if x.kind == "punct":
+                if x.text == "{" and d == 0: break
+                if x.text in OPEN: d += 1
+                elif x.text in CLOSE: d -= 1
+            j += 1
+        c = match_close(st_, j)
+        while st_[i0].text == "if" and c + 1 < len(st_) and st_[c + 1].text == "else":
+            j = c + 2
+            while st_[j].text != "{": j += 1
+            c = match_close(st_, j)
+        r_lo, r_hi = st_[i0].start, st_[c].end
+        region = orig[r_lo:r_hi]
+        # cut nested fn items
+        cuts = []
+        for nf in _nested_fns(sf, it):
+            lo, hi = nf.start - start, nf.end - start
+            if r_lo <= lo and hi <= r_hi: cuts.append((lo - r_lo, hi - r_lo, ""))
+        region = apply_edits(region, cuts)
+        pc.span = [start + r_lo, start + r_hi]
+        pc.orig = orig[r_lo:r_hi]
+        pc.sha256 = hashlib.sha256(pc.orig.encode()).hexdigest()
+        pc.region = {"header": rg["as"], "prologue": rg.get("prologue", ""), "epilogue": rg.get("epilogue", ""), "nested_fns_cut": len(cuts)}
+        text = "%s\n{\n%s\n%s\n%s\n}" % (rg["as"], rg.get("prologue", ""), region, rg.get("epilogue", ""))
+        rules.append("R16")
     # attributes: types keep their derive attributes (R2 edits), everything else dropped
     derive = [a for a in it.attrs if re.match(r"#\[derive\(", a)]
     prefix = ""
@@ -616,6 +741,7 @@ def extract_item(path, selector, opts, directives, findings_open):
         text = rule_r5(text, rules)
         text = rule_r14(text, rules)
         text = rule_r4(text, rules)
+        text = rule_r17(text, rules)
         if "r3" in opts:
             text = rule_r3(text, rules)
         else:
@@ -629,7 +755,7 @@ def extract_item(path, selector, opts, directives, findings_open):
     # drop doc comments inside types (field docs are harmless but `//!` is not)
     if it.kind == "fn":
         text = splice_fn(text, opts, directives, path, selector)
-    elif any(k in directives for k in ("sig", "entry", "tail", "exit", "loop", "before", "after", "ret")):
+    elif any(k in directives for k in ("sig", "entry", "tail", "exit", "loop", "loop-end", "before", "after", "ret")):
         raise ExtractError("splice directives only apply to fn items (%s)" % selector)
     pc.text = prefix + text
     return pc
@@ -686,6 +812,11 @@ def splice_fn(text, opts, directives, path, selector):
                     j += 1
                 edits.append((st[j].end, st[j].end, " %s:" % itername))
             edits.append((st[lbo].start, st[lbo].start, "\n" + ltxt + "\n"))
+        for (n, ltxt) in directives.get("loop-end", []):
+            if n < 1 or n > len(loops):
+                raise ExtractError("anchor lost: loop %d of %s (has %d)" % (n, where, len(loops)))
+            lbc = match_close(st, loops[n - 1][1])
+            edits.append((st[lbc].start, st[lbc].start, "\n" + ltxt + "\n"))
         bstart = st[bo].end
         for (kind, anchor, k, atxt) in directives.get("anchors", []):
             occ = [m.start() for m in re.finditer(re.escape(anchor), text) if m.start() >= bstart]
@@ -855,6 +986,8 @@ def generate(spec_path, open_findings=(), auto_helpers=()):
                         directives[cur[0]] = (directives.get(cur[0], "") + "\n" + txt) if cur[0] in directives else txt
                     elif cur[0] == "loop":
                         directives.setdefault("loop", []).append((cur[1], cur[2], txt))
+                    elif cur[0] == "loop-end":
+                        directives.setdefault("loop-end", []).append((cur[1], txt))
                     elif cur[0] in ("before", "after"):
                         directives.setdefault("anchors", []).append((cur[0], cur[1], cur[2], txt))
                     cur = None; buf = []
@@ -877,10 +1010,17 @@ def generate(spec_path, open_findings=(), auto_helpers=()):
                             i += 1; continue
                         flush()
                         if d2 == "end": i += 1; break
-                        if d2.startswith("ret "): directives["ret"] = d2[4:].strip()
+                        if d2.startswith("region-start "):
+                            q, _r = _parse_quoted(d2[len("region-start "):]); directives.setdefault("region", {})["start"] = q
+                        elif d2.startswith("region-as "): directives.setdefault("region", {})["as"] = d2[len("region-as "):].strip()
+                        elif d2.startswith("region-prologue "): directives.setdefault("region", {})["prologue"] = d2[len("region-prologue "):].strip()
+                        elif d2.startswith("region-epilogue "): directives.setdefault("region", {})["epilogue"] = d2[len("region-epilogue "):].strip()
+                        elif d2.startswith("ret "): directives["ret"] = d2[4:].strip()
                         elif d2.startswith("derive "): directives.setdefault("derive", []).append(d2[7:].strip())
                         elif d2.startswith("attr "): directives.setdefault("attr", []).append(d2[5:].strip())
                         elif d2 in ("sig", "entry", "tail", "exit"): cur = (d2,)
+                        elif d2.startswith("loop-end "):
+                            cur = ("loop-end", int(d2.split()[1]))
                         elif d2.startswith("loop "):
                             ws = d2.split()
                             itn = None
